@@ -129,10 +129,12 @@ static void reb_saba_corrector_step(struct reb_simulation* r, double cc){
     struct reb_particle* const p_j = ri_whfast->p_jh;
 	struct reb_particle* const particles = r->particles;
     const unsigned int N = r->N;
+    // Same active/test particle split as the WHFast routines which did the forward transformation.
+    const unsigned int N_active = (r->N_active==-1 || r->testparticle_type==1)?N:(unsigned int)r->N_active;
     switch (r->ri_saba.type/0x100){
         case 1: // modified kick
             // Calculate normal kick
-            reb_particles_transform_jacobi_to_inertial_pos(particles, p_j, particles, N, N);
+            reb_particles_transform_jacobi_to_inertial_pos(particles, p_j, particles, N, N_active);
             reb_simulation_update_acceleration(r);
             // Calculate jerk
             reb_whfast_calculate_jerk(r);
@@ -155,9 +157,9 @@ static void reb_saba_corrector_step(struct reb_simulation* r, double cc){
             struct reb_particle* p_temp = ri_whfast->p_temp;
 
             // Calculate normal kick
-            reb_particles_transform_jacobi_to_inertial_pos(particles, p_j, particles, N, N);
+            reb_particles_transform_jacobi_to_inertial_pos(particles, p_j, particles, N, N_active);
             reb_simulation_update_acceleration(r);
-            reb_particles_transform_inertial_to_jacobi_acc(particles, p_j, particles, N, N);
+            reb_particles_transform_inertial_to_jacobi_acc(particles, p_j, particles, N, N_active);
 
             // make copy of original positions and accelerations
             memcpy(p_temp,p_j,r->N*sizeof(struct reb_particle));
@@ -171,9 +173,9 @@ static void reb_saba_corrector_step(struct reb_simulation* r, double cc){
             }
            
             // recalculate kick 
-            reb_particles_transform_jacobi_to_inertial_pos(particles, p_j, particles, N, N);
+            reb_particles_transform_jacobi_to_inertial_pos(particles, p_j, particles, N, N_active);
             reb_simulation_update_acceleration(r);
-            reb_particles_transform_inertial_to_jacobi_acc(particles, p_j, particles, N, N);
+            reb_particles_transform_inertial_to_jacobi_acc(particles, p_j, particles, N, N_active);
 
             const double prefact = cc*r->dt*12.;
             for (unsigned int i=1;i<N;i++){
@@ -263,6 +265,7 @@ void reb_integrator_saba_synchronize(struct reb_simulation* const r){
     int type = ri_saba->type;
     if (ri_saba->is_synchronized == 0){
         const int N = r->N;
+        const int N_active = (r->N_active==-1 || r->testparticle_type==1)?N:r->N_active;
         struct reb_particle* sync_pj  = NULL;
         if (ri_saba->keep_unsynchronized){
             sync_pj = malloc(sizeof(struct reb_particle)*r->N);
@@ -275,7 +278,7 @@ void reb_integrator_saba_synchronize(struct reb_simulation* const r){
             reb_whfast_kepler_step(r, reb_saba_c[type%0x100][0]*r->dt);
             reb_whfast_com_step(r, reb_saba_c[type%0x100][0]*r->dt);
         }
-        reb_particles_transform_jacobi_to_inertial_posvel(r->particles, ri_whfast->p_jh, r->particles, N, N);
+        reb_particles_transform_jacobi_to_inertial_posvel(r->particles, ri_whfast->p_jh, r->particles, N, N_active);
         if (ri_saba->keep_unsynchronized){
             memcpy(r->ri_whfast.p_jh,sync_pj,r->N*sizeof(struct reb_particle));
             free(sync_pj);
@@ -292,6 +295,7 @@ void reb_integrator_saba_part2(struct reb_simulation* const r){
     const int type = ri_saba->type;
     const int stages = reb_saba_stages(type);
     const unsigned int N = r->N;
+    const unsigned int N_active = (r->N_active==-1 || r->testparticle_type==1)?N:(unsigned int)r->N_active;
     if (ri_whfast->p_jh==NULL){
         // Non recoverable error occured earlier. 
         // Skipping rest of integration to avoid segmentation fault.
@@ -314,7 +318,7 @@ void reb_integrator_saba_part2(struct reb_simulation* const r){
             if (j>(stages-1)/2){
                 i = stages-j-1;
             }
-            reb_particles_transform_jacobi_to_inertial_pos(particles, ri_whfast->p_jh, particles, N, N);
+            reb_particles_transform_jacobi_to_inertial_pos(particles, ri_whfast->p_jh, particles, N, N_active);
             reb_simulation_update_acceleration(r);
             reb_whfast_interaction_step(r, reb_saba_d[type%0x100][i]*r->dt);
         }
